@@ -30,6 +30,27 @@ def check(run):
     run.violations = [v for v in run.violations if not v["rule"].startswith("C10-y")]
     for x in ("C10-y0", "C10-y2", "C10-y3", "C10-y4"):
         del run.rules[x]
+    # whatever the parameter kind, the id a virtual parameter contributes is that of the cv-UNQUALIFIED pointee class - the class
+    # that registrations name. An rtti facet may give `const X` another static id than `X` (minimal_rtti's per-type statics do)
+    from .. import e3, witness
+    ku = e3.Unit("c10_kinds", witness.PRELUDE + """
+namespace c10k { using namespace yw; template<class P, class T> using pt = typename detail::virtual_traits<P, T>::polymorphic_type;
+template<class M> struct ids; template<class K, class R, class... A, class P> struct ids<method<K, R(A...), P>> { using type = typename method<K, R(A...), P>::polymorphic_argument_types; }; }
+using namespace c10k;
+""")
+    kinds = ["A&", "const A&", "A&&", "A*", "const A*", "std::shared_ptr<A>", "const std::shared_ptr<A>&", "std::shared_ptr<const A>", "const std::shared_ptr<const A>&",
+             "virtual_ptr<A, {P}>", "virtual_ptr<const A, {P}>", "const virtual_ptr<A, {P}>&", "const virtual_ptr<const A, {P}>&",
+             "virtual_ptr<std::shared_ptr<A>, {P}>", "virtual_ptr<std::shared_ptr<const A>, {P}>", "const virtual_ptr<std::shared_ptr<const A>, {P}>&"]
+    for pn in (["release", "p_def"] if run.tier == "quick" else ["release", "debug", "p_def", "p_proj", "p_map", "p_nohash"]):
+        P = witness.POLICIES[pn]
+        for kd in kinds:
+            t = kd.replace("{P}", P)
+            ku.add("kind|%s|%s" % (pn, kd.replace("{P}", "P")), "a virtual parameter of kind %s contributes the id of the cv-unqualified class (policy %s)" % (kd.replace("{P}", "P"), pn),
+                   "static_assert(std::is_same_v<pt<%s, %s>, A>);" % (P, t))
+    run.rule("C10-kinds", "for every virtual parameter kind the class whose id is registered for the parameter is the cv-unqualified pointee class", floor=30)
+    for ob, ok, msg in e3.run_unit(run, "C10-kinds", ku):
+        if not ok:
+            run.violation("C10-kinds", ob["key"], "%s: %s" % (ob["desc"], msg), "include/yorel/yomm2/detail.hpp")
     from .. import crules as _cr
     _cr.facet_rules(run, "C10-facets")
     return run.finish(level="other", explanation="AST / CFG rules: who-must-wrap rule on class_map keys, control-dependence whitelist of the id-list append, loop-nest rule "
